@@ -2,6 +2,7 @@ package main
 
 import (
 	"fmt"
+	"os"
 	"go/constant"
 	"go/token"
 	"go/types"
@@ -50,6 +51,15 @@ type Frame struct {
 	retTo   ssa.Value // call instruction in the parent frame
 	oldHeap map[string]string
 	oldNow  string
+	deferred []Deferred
+	awaiting bool
+}
+
+type Deferred struct {
+	C    *ssa.CallCommon
+	Fn   Val
+	Args []Val
+	Pos  token.Pos
 }
 
 type DynCall struct {
@@ -67,6 +77,8 @@ type State struct {
 	stack   []*Frame
 	dyn     []DynCall
 	calls   map[string]int // call counts of tracked functions (concrete counts along this path)
+	callRes map[string][]Val
+	focused map[int]bool
 	callLog []string
 	path    []string
 	notes   []string
@@ -110,6 +122,7 @@ type Exec struct {
 	maxStates int
 	dropped map[string]int
 	analyzedFns map[*ssa.Function]bool
+	pruned int
 }
 
 func (x *Exec) fresh(prefix string) string {
@@ -130,6 +143,14 @@ func (st *State) clone() *State {
 	for k, v := range st.calls {
 		n.calls[k] = v
 	}
+	n.callRes = make(map[string][]Val, len(st.callRes))
+	for k, v := range st.callRes {
+		n.callRes[k] = append([]Val(nil), v...)
+	}
+	n.focused = make(map[int]bool, len(st.focused))
+	for k, v := range st.focused {
+		n.focused[k] = v
+	}
 	n.ghost = make(map[string]Val, len(st.ghost))
 	for k, v := range st.ghost {
 		n.ghost[k] = v
@@ -144,6 +165,7 @@ func (st *State) clone() *State {
 		for k, v := range f.vals {
 			nf.vals[k] = v
 		}
+		nf.deferred = append([]Deferred(nil), f.deferred...)
 		nf.locals = make(map[string]Val, len(f.locals))
 		for k, v := range f.locals {
 			nf.locals[k] = v
@@ -682,9 +704,7 @@ func (x *Exec) enterBlock(st *State, b, pred *ssa.BasicBlock) bool {
 	}
 	fname := x.funcKeyOf(fr.fn)
 	if spec == nil {
-		if len(st.stack) == 1 || true {
-			x.errs = append(x.errs, fmt.Sprintf("%s: loop %d has no invariant", fname, ord))
-		}
+		x.dropped[fmt.Sprintf("loop %d of %s cut with invariant 'true'", ord, shortKey(fname))]++
 	} else {
 		for _, inv := range spec.Invariants {
 			t := x.evalBool(st, inv.SX, x.specEnv(st, fr, nil))
@@ -792,14 +812,15 @@ func (x *Exec) step(st *State) []*State {
 			c := x.get(st, i.Cond)
 			tb, fb := fr.block.Succs[0], fr.block.Succs[1]
 			var out []*State
+			prune := x.fc != nil && len(x.fc.Focus) > 0 && len(st.focused) > 0
 			s2 := st.clone()
 			x.assume(s2, "(not "+c.S+")")
-			if x.enterBlock(s2, fb, fr.block) {
+			if !(prune && !x.feasible(s2)) && x.enterBlock(s2, fb, fr.block) {
 				out = append(out, s2)
 			}
 			cur := fr.block
 			x.assume(st, c.S)
-			if x.enterBlock(st, tb, cur) {
+			if !(prune && !x.feasible(st)) && x.enterBlock(st, tb, cur) {
 				out = append(out, st)
 			}
 			return out
@@ -843,6 +864,50 @@ func (x *Exec) step(st *State) []*State {
 
 func (x *Exec) atPanic(st *State) {}
 
+// feasible asks the solver whether the path condition is satisfiable (used to prune paths excluded by a focus).
+func (x *Exec) feasible(st *State) bool {
+	f, err := os.CreateTemp(scratchBase(), "feas*.smt2")
+	if err != nil {
+		return true
+	}
+	defer os.Remove(f.Name())
+	f.WriteString(x.header() + strings.Join(st.lines, "\n") + "\n(check-sat)\n")
+	f.Close()
+	r, _, _ := runSolver(solvers[0], f.Name(), 3)
+	x.pruned++
+	return r != "unsat"
+}
+
+// applyFocus applies focus clauses and lazily evaluable assumptions as soon as the values they mention exist.
+func (x *Exec) applyFocus(st *State) {
+	if x.fc == nil || len(st.stack) != 1 || (len(x.fc.Focus) == 0 && len(x.fc.Assume) == 0) {
+		return
+	}
+	all := append(append([]Clause(nil), x.fc.Focus...), x.fc.Assume...)
+	for i, c := range all {
+		if st.focused[i] {
+			continue
+		}
+		func() {
+			defer func() {
+				if r := recover(); r != nil {
+					if _, ok := r.(specError); ok {
+						return
+					}
+					panic(r)
+				}
+			}()
+			env := x.specEnv(st, st.top(), nil)
+			t := x.eval(c.SX, env).S
+			x.assume(st, t)
+			st.focused[i] = true
+			if i >= len(x.fc.Focus) {
+				x.assum[fmt.Sprintf("%s: assumed %s: %s", x.funcKeyOf(x.fn), c.Name, c.SX.String())] = true
+			}
+		}()
+	}
+}
+
 // safety emits an obligation (nopanic functions) or an assumption for an implicit run-time check.
 func (x *Exec) safety(st *State, what string, cond string, pos token.Pos) {
 	if x.fc != nil && x.fc.NoPanic {
@@ -866,6 +931,7 @@ func (x *Exec) instr(st *State, in ssa.Instruction) bool {
 				v.Rng = &Val{S: "addr"}
 			}
 			st.top().locals[name] = v
+			x.applyFocus(st)
 		}
 	case *ssa.Alloc:
 		t := i.Type().(*types.Pointer).Elem()
@@ -1007,15 +1073,40 @@ func (x *Exec) instr(st *State, in ssa.Instruction) bool {
 	case *ssa.Next:
 		x.next(st, i)
 	case *ssa.Call:
-		return x.call(st, i)
+		ok := x.call(st, i)
+		x.applyFocus(st)
+		return ok
 	case *ssa.Defer:
-		x.note(st, "defer ignored: "+x.L.pos(i.Pos()))
+		c := i.Common()
+		var args []Val
+		for _, a := range c.Args {
+			args = append(args, x.get(st, a))
+		}
+		d := Deferred{C: c, Args: args, Pos: i.Pos()}
+		if _, isB := c.Value.(*ssa.Builtin); !isB {
+			d.Fn = x.get(st, c.Value)
+		}
+		fr := st.top()
+		fr.deferred = append(fr.deferred, d)
 	case *ssa.RunDefers:
+		fr := st.top()
+		if n := len(fr.deferred); n > 0 {
+			d := fr.deferred[n-1]
+			fr.deferred = fr.deferred[:n-1]
+			fr.pc-- // run this instruction again until no deferred call is left
+			if _, isB := d.C.Value.(*ssa.Builtin); isB {
+				x.note(st, "deferred builtin ignored")
+				return true
+			}
+			return x.callCommon(st, d.C, nil, d.Pos, d.Args, d.Fn)
+		}
 	case *ssa.Go:
 		x.note(st, "go statement abstracted: "+x.L.pos(i.Pos()))
+		st.calls["effect:go"]++
 		x.havocAll(st)
 	case *ssa.Send:
 		x.note(st, "channel send ignored")
+		st.calls["effect:send"]++
 	case *ssa.Select:
 		st.top().vals[i] = x.havocVal(st, i.Type(), "select")
 	case *ssa.SliceToArrayPointer, *ssa.MultiConvert:
